@@ -30,7 +30,7 @@ SCRATCH = os.path.join(C.VERIF, ".scratch", "cli")
 
 def gen(ctx):
     rng = ctx.rng
-    n = 1500 if ctx.tier == "quick" else 20000
+    n = 1500 if ctx.tier == "quick" else 100000
     eg = G.ExprGen(rng, funcs=True, maxdepth=2)
     cases = []
     for _ in range(n):
@@ -65,7 +65,7 @@ def gen(ctx):
 def rand_json(rng, depth):
     r = rng.random()
     if depth <= 0 or r < 0.3:
-        return rng.choice([None, True, False, 0, 1, -2, 1.5, "a", "é😀", "", 10 ** 20, 0.1])
+        return rng.choice([None, True, False, 0, 1, -2, 1.5, "a", "é😀", "", 10 ** 20, 0.1, "say \"hi\"", "back\\slash", "line\nbreak\ttab", "\u0001ctl", "\"", "\\", "a b"])
     if r < 0.65:
         return [rand_json(rng, depth - 1) for _ in range(rng.randrange(0, 4))]
     return {rng.choice(G.IDENTS[:8]): rand_json(rng, depth - 1) for _ in range(rng.randrange(0, 4))}
